@@ -806,6 +806,13 @@ def rule_c19_commands(prog: Program, col: Collector) -> None:
             ok = True
     col.check(ok, sref.where(), sref.short, "save() calls each SAVERS entry with (model_path / name, unique_name, output)",
               construct="save-dispatch", necessity="the JSON saver must receive the run's name and output")
+    disp = [e for e in calls if len(e.args) == 3]
+    early = [e for e in sft.of_kind("return") if disp and e.seq < disp[0].seq]
+    guarded = [f for e in disp for f in e.ctx if f[0] == "if"]
+    col.check(not early and not guarded, sref.where(early[0].node if early else None), sref.short,
+              "every saver is called unconditionally for every save (no early exit before the dispatch loop)", construct="save-dispatch-conditional",
+              necessity="the skip-if-present decision belongs to the JSON saver (exact name in the loaded mapping): a shortcut on another artefact "
+                        "(e.g. an existing plot file) silently drops a run saved under a new name")
     mk = [e for e in sft.calls("mkdir")]
     col.check(bool(mk), sref.where(), sref.short, "save() creates the model directory when missing",
               construct="save-mkdir", necessity="first save into a fresh directory must succeed")
